@@ -19,8 +19,9 @@ DIM = 3
 class SymArray:
     """np.zeros / np.array results: nested python lists with tuple indexing"""
 
-    def __init__(self, data):
+    def __init__(self, data, inherits=None):
         self.data = data
+        self.inherits = inherits          # allocated by zeros_like & co. from the evaluation point: has the point's dtype (integer for integer data)
 
     @staticmethod
     def zeros(shape):
@@ -48,6 +49,13 @@ class SymArray:
             self._check(d, k)
             d = d[k]
         self._check(d, idx[-1])
+        if self.inherits:
+            for leaf in (sp.flatten(v.tolist()) if isinstance(v, SymArray) else [v]):
+                lf = sp.sympify(leaf)
+                if lf.is_integer is not True and not (lf.is_Float and float(lf) == int(lf)):
+                    ALLOC_EVENTS.append(f'{self.inherits}: the value {str(leaf)[:60]} is stored into an array that has the dtype of the evaluation point (for integer-valued '
+                                        f'points the fractional part is cut off)')
+                    break
         d[idx[-1]] = v
 
     def tolist(self):
@@ -108,6 +116,10 @@ class SymArray:
     def __rmul__(self, o): return self._ew(o, lambda x, y: y * x)
     def __truediv__(self, o): return self._ew(o, lambda x, y: x / y)
     def __neg__(self): return self._ew(0, lambda x, y: -x)
+
+
+ALLOC_EVENTS = []
+SINGULAR_EVENTS = []
 
 
 class Poly1d:
@@ -176,6 +188,21 @@ class FakeNp:
 
     def zeros(self, shape, *a, **k):
         return SymArray.zeros(shape)
+
+    def _like(self, name, x, dtype=None, **k):
+        if k.get('shape') is not None or not isinstance(x, (list, tuple, SymArray)):
+            raise AnalysisError(f'np.{name} of {type(x).__name__} (or with shape=) has no model in the symbolic domain')
+        shape = SymArray(list(x)).shape if not isinstance(x, SymArray) else x.shape
+        r = SymArray.zeros(shape)
+        if dtype is None:
+            r.inherits = f'np.{name}(<evaluation point>)'
+        return r
+
+    def zeros_like(self, x, dtype=None, **k):
+        return self._like('zeros_like', x, dtype, **k)
+
+    def empty_like(self, x, dtype=None, **k):
+        return self._like('empty_like', x, dtype, **k)
 
     def array(self, x, *a, **k):
         return SymArray(list(x)) if isinstance(x, (list, tuple)) else x
@@ -251,6 +278,26 @@ class C14Domain:
     def isinstance(self, obj, t):
         return False
 
+    def on_binop(self, op, a, b, node):
+        """a negative power of (or a division by) an expression that vanishes at a point of the domain: sympy cancels 0 * x**(-1) to 0, NumPy evaluates it to nan"""
+        import ast as _ast
+        den = None
+        if isinstance(op, _ast.Pow) and isinstance(a, sp.Basic) and not isinstance(b, (SymArray, list)):
+            try:
+                if sp.sympify(b).is_negative is True:
+                    den = a
+            except (sp.SympifyError, TypeError):
+                pass
+        elif isinstance(op, _ast.Div) and isinstance(b, sp.Basic):
+            den = b
+        if den is None:
+            return
+        coords = [s_ for s_ in den.free_symbols if s_.name[:1] == 'x' and s_.name[1:].isdigit()]
+        if coords and den.is_nonzero is not True and den.is_positive is not True:
+            zero_at = sp.solve(den, coords[0], dict=True) if den.is_polynomial(*coords) else None
+            if zero_at:
+                SINGULAR_EVENTS.append((str(den), f'{coords[0]} = {zero_at[0][coords[0]]}', norm_text(node, 80)))
+
 
 def make_libs(array_mode):
     np_ = FakeNp(array_mode)
@@ -260,6 +307,9 @@ def make_libs(array_mode):
     class Special:
         @staticmethod
         def legendre(n):
+            if isinstance(n, (int, sp.Integer)) and not isinstance(n, bool):
+                # a concrete degree: the Legendre polynomial itself (a shortcut such as "the second derivative vanishes below degree 2" is then decided, not assumed)
+                return Poly1d(lambda u, n_=int(n): sp.legendre(n_, u))
             return Poly1d(P)
 
     class Interpolate:
@@ -285,7 +335,7 @@ def param_values(cls_name, pname, index):
         n = sp.Symbol('n', integer=True, nonnegative=True)
         return [0, 1, 2, 3, 5, n + 2]
     if pname in ('degree',) and cls_name != 'Bspline':
-        return [0, 1, 4, sp.Symbol('deg', integer=True, nonnegative=True)]
+        return [0, 1, 2, 3, 4, sp.Symbol('deg', integer=True, nonnegative=True)]
     if pname == 'degree':
         return [2]
     if pname == 'knots':
@@ -300,6 +350,8 @@ def param_values(cls_name, pname, index):
 def residual_zero(res):
     """True / False / None(undecided)"""
     res = sp.simplify(res)
+    if res != 0:
+        res = sp.simplify(sp.expand(res.doit()))          # (simplify evaluates the derivatives of concrete polynomials inside Subs but does not combine the result)
     if res == 0:
         return True
     # numeric probe of the DERIVED residual (not of repository code)
@@ -567,6 +619,32 @@ EXEMPT = []
 def check_one(run, repo, cref, cname, label, index, x, call_method):
     modname = 'data_driven.transform'
     exempt = EXEMPT
+    call_method_ = call_method
+
+    sing_call = set()
+
+    def call_method(method, *a, **k):
+        ALLOC_EVENTS.clear()
+        SINGULAR_EVENTS.clear()
+        try:
+            return call_method_(method, *a, **k)
+        finally:
+            if method == '__call__':
+                sing_call.update(e_[:2] for e_ in SINGULAR_EVENTS)
+            else:
+                # the derivative is defined wherever the function is: no division by (negative power of) a quantity that vanishes at a point where __call__ is regular
+                new = [e_ for e_ in SINGULAR_EVENTS if e_[:2] not in sing_call]
+                if new and not k.get('array_mode'):
+                    fn = cref.find(method)
+                    run.oblige('D1', (label, method, 'defined everywhere'), False)
+                    run.add(Finding('C14', 'D1', f'{fn.mod}::{fn.cls}.{method}', 'derivative undefined at a regular point', f'{label}.{method}: `{new[0][2]}` divides by {new[0][0]}, which vanishes at '
+                                    f'{new[0][1]} -- a point where __call__ is regular: the derivative evaluates to nan (or raises) there even where the symbolic value is finite', fn.file, fn.node.lineno))
+            SINGULAR_EVENTS.clear()
+            if ALLOC_EVENTS:
+                fn = cref.find(method)
+                run.oblige('D2', (label, method, 'dtype of the result'), False)
+                run.add(Finding('C14', 'D2', f'{fn.mod}::{fn.cls}.{method}', 'result allocated in the dtype of the point', f'{label}.{method}: {ALLOC_EVENTS[0]}', fn.file, fn.node.lineno))
+                ALLOC_EVENTS.clear()
     if True:
         if True:
             if True:
